@@ -52,6 +52,7 @@ func (c03) Thresholds(tier string) map[string]int64 {
 		"declare-from-function-call":                    300,
 		"re-executed-assignments":                       2500,
 		"re-executed-assignment-refused-on-type-change": 1000,
+		"two-runners-over-one-store":                    1500,
 	}
 	for _, op := range assignOps {
 		for _, cur := range curKinds {
@@ -249,6 +250,138 @@ func (p c03) Run(c *core.Ctx) {
 	if !c.Failed() {
 		p.restoresAcrossTypes(c)
 	}
+	if !c.Failed() {
+		p.twoRunnersOneStore(c)
+	}
+}
+
+// twoRunnersOneStore: the host gives ONE store to two runners (two conversations of one game) and steps them in
+// turn. The store is the source of truth for both: what one dialogue assigns the other one reads, a variable
+// keeps the type it has whichever dialogue gave it that type, and a refused assignment leaves the store alone.
+func (p c03) twoRunnersOneStore(c *core.Ctx) {
+	r := c.R
+	lit := func(t int, k int) (src string, shown string, v model.Val) {
+		switch t {
+		case 0:
+			n := float64(r.Range(1, 900) + 1000*k)
+			return strconv.Itoa(int(n)), strconv.Itoa(int(n)), model.N(n)
+		case 1:
+			b := r.Bool()
+			if b {
+				return "true", "True", model.B(true)
+			}
+			return "false", "False", model.B(false)
+		}
+		w := r.Pick("kiwi", "Åse", "日本", "a b", "x") + strconv.Itoa(k)
+		return "\"" + w + "\"", w, model.S(w)
+	}
+	tx, ty := r.Intn(3), r.Intn(3)
+	x1s, x1d, _ := lit(tx, 1)
+	x2s, x2d, x2 := lit(tx, 2)
+	ys, yd, yv := lit(ty, 3)
+	badY, _, _ := lit((ty+1+r.Intn(2))%3, 4)
+	badX, _, _ := lit((tx+1+r.Intn(2))%3, 5)
+	// A's compound step on $x (the value B left there)
+	upd, xFinal := "<<set $x to $x>>", x2
+	xFinalShown := x2d
+	switch tx {
+	case 0:
+		upd, xFinal = "<<set $x += 10>>", model.N(x2.N+10)
+		xFinalShown = strconv.Itoa(int(xFinal.N))
+	case 2:
+		upd, xFinal = "<<set $x += \"!\">>", model.S(x2.S+"!")
+		xFinalShown = xFinal.S
+	}
+	a := "title: Start\n---\n<<set $x to " + x1s + ">>\na1 {$x}\n" + upd + "\na2 {$x} {$y}\n<<set $y to " + badY + ">>\na3\n===\n"
+	b := "title: Start\n---\nb1 {$x}\n<<set $x to " + x2s + ">>\n<<declare $y = " + ys + ">>\nb2 {$x}\n<<set $x = " + badX + ">>\nb3\n===\n"
+	useDef := r.Bool()
+	rec := mon.NewRecStorer()
+	def := variable.NewInMemoryStorer()
+	var st variable.Storer = rec
+	if useDef {
+		st = def
+	}
+	ra, err, pan := mon.Create(st, "", []string{a})
+	if err != nil || pan != "" {
+		c.Violate("the first script of the shared-store pair failed to load", map[string]any{"readers": []string{a}, "error": fmt.Sprint(err), "panic": pan})
+		return
+	}
+	// the second runner is created after the first one took its first step, or before
+	var rb *mon.Real
+	mkB := func() bool {
+		rb, err, pan = mon.Create(st, "", []string{b})
+		if err != nil || pan != "" {
+			c.Violate("the second script of the shared-store pair failed to load", map[string]any{"readers": []string{b}, "error": fmt.Sprint(err), "panic": pan})
+			return false
+		}
+		return true
+	}
+	early := r.Bool()
+	if early && !mkB() {
+		return
+	}
+	var trace []string
+	store := func() map[string]variable.Value {
+		if useDef {
+			return def.GetValues()
+		}
+		return rec.GetValues()
+	}
+	fail := func(what string) {
+		c.Violate("two runners over one variable store: "+what, map[string]any{"dialogue_A": a, "dialogue_B": b, "default_store": useDef,
+			"second_runner_created_before_the_first_step": early, "trace": trace})
+	}
+	expectLine := func(who string, rr *mon.Real, text string) bool {
+		o := rr.Next(0)
+		trace = append(trace, who+": "+o.String())
+		if o.Kind != mon.KLine || o.Text != text {
+			fail(who + " should show " + strconv.Quote(text) + " (the store is the source of truth for both dialogues)")
+			return false
+		}
+		return true
+	}
+	expectErr := func(who string, rr *mon.Real, want map[string]model.Val) bool {
+		o := rr.Next(0)
+		trace = append(trace, who+": "+o.String())
+		if o.Kind != mon.KErr {
+			fail(who + " assigned a value of another type to a variable the OTHER dialogue created; an error is required")
+			return false
+		}
+		if d := mon.StateDiff(want, store()); d != "" {
+			fail("the refused assignment changed the store: " + d)
+			return false
+		}
+		return true
+	}
+	if !expectLine("A", ra, "a1 "+x1d) {
+		return
+	}
+	if !early && !mkB() {
+		return
+	}
+	if !expectLine("B", rb, "b1 "+x1d) || !expectLine("B", rb, "b2 "+x2d) || !expectLine("A", ra, "a2 "+xFinalShown+" "+yd) {
+		return
+	}
+	want := map[string]model.Val{"x": xFinal, "y": yv}
+	if d := mon.StateDiff(want, store()); d != "" {
+		fail("store content after both dialogues wrote: " + d)
+		return
+	}
+	if !expectErr("A", ra, want) || !expectErr("B", rb, want) {
+		return
+	}
+	if useDef {
+		nums, bools, strs := def.VerifTypedNames()
+		if len(nums)+len(bools)+len(strs) != 2 {
+			fail(fmt.Sprintf("the default store reports a name under two types (numbers %v, booleans %v, strings %v)", nums, bools, strs))
+			return
+		}
+	} else if len(rec.TypeChanges) > 0 {
+		fail("a variable was written under a second type: " + strings.Join(rec.TypeChanges, "; "))
+		return
+	}
+	c.Feature("two-runners-over-one-store")
+	c.FeatureN("statements", 8)
 }
 
 // restoresAcrossTypes: snapshot B holds $x as a number; an older snapshot A (where $x does not exist) is
